@@ -21,6 +21,7 @@ type boundedResult struct {
 	Failures []string `json:"failures"`
 	Seconds  float64  `json:"seconds"`
 	Races    int      `json:"data_races"`
+	Known    map[string]string `json:"known_keys,omitempty"` // BOUNDED-KNOWN key=<k> lines: cases the stand-in itself classifies as a known defect shape
 	Status   string   `json:"status"` // bounded-pass | bounded-fail | error
 	Cmd      string   `json:"cmd"`
 }
@@ -101,6 +102,19 @@ func runBounded(repo, verif, prop string) []boundedResult {
 			}
 			if race && strings.Contains(l, "WARNING: DATA RACE") {
 				r.Races++
+			}
+			if i := strings.Index(l, "BOUNDED-KNOWN key="); i >= 0 {
+				rest := strings.TrimSpace(l[i+len("BOUNDED-KNOWN key="):])
+				key := rest
+				if j := strings.IndexAny(rest, " \t"); j >= 0 {
+					key = rest[:j]
+				}
+				if r.Known == nil {
+					r.Known = map[string]string{}
+				}
+				if _, seen := r.Known[key]; !seen {
+					r.Known[key] = rest
+				}
 			}
 		}
 		if r.Races > 0 {
